@@ -119,6 +119,7 @@ type c17Case struct {
 	prechurn int    // add+remove cycles of temporary names before the iteration (ages the table's removal bookkeeping)
 	spread   bool   // mutation phases spread over the whole iteration instead of the first calls
 	viaCopy  bool   // hscan/sscan: iterate over a COPY of the collection
+	twin     bool   // hscan/sscan: a second collection with the same names is iterated in between the calls
 	compact  bool   // names with pairwise different low hash bits: the table stays about twice the element count, so it really halves when elements go
 }
 
@@ -428,6 +429,12 @@ func c17Run(r *verdict.Run, e *emu, cs c17Case, rng *rand.Rand) {
 			mut.Do("RENAME", coll+"-copy", coll)
 		}
 	}
+	twin, twinCursor := "", "0"
+	if cs.twin && cs.kind != "scan" {
+		if v, err := mut.Do("COPY", coll, coll+"-twin"); err == nil && v.Int == 1 {
+			twin = coll + "-twin"
+		}
+	}
 	// the iteration
 	returned := map[string]int{}
 	retVals := map[string]map[string]bool{}
@@ -470,6 +477,17 @@ func c17Run(r *verdict.Run, e *emu, cs c17Case, rng *rand.Rand) {
 		v, err := cn.Do(args...)
 		calls++
 		v = model.Down(v)
+		if twin != "" {
+			// an unrelated iteration over the twin collection (same names, same table layout, same cursor values) goes on
+			// between the calls of this one
+			targs := []string{map[string]string{"hscan": "HSCAN", "sscan": "SSCAN"}[cs.kind], twin, twinCursor, "COUNT", strconv.Itoa(cs.count)}
+			if tv, terr := cn.Do(targs...); terr == nil {
+				tv = model.Down(tv)
+				if tv.Kind == '*' && len(tv.Elems) == 2 {
+					twinCursor = tv.Elems[0].Text()
+				}
+			}
+		}
 		if err != nil || v.Kind != '*' || len(v.Elems) != 2 || !v.Elems[0].IsString() || v.Elems[1].Kind != '*' {
 			r.Report("c17/bad-reply/"+cs.kind, fmt.Sprintf("%s: call %d %s -> %s %v", cs, calls, cmdString(args), v, err), map[string]any{"case": cs.String(), "cursors": cursors})
 			return
@@ -686,7 +704,7 @@ func c17Run(r *verdict.Run, e *emu, cs c17Case, rng *rand.Rand) {
 }
 
 func checkC17(r *verdict.Run) {
-	r.Rule = "full iterations (cursor 0 -> ... -> 0, cursors fed back verbatim) of SCAN/HSCAN/SSCAN over collections of 0-3000 elements with COUNT in {1,2,7,10,100,10000}, with and without MATCH/TYPE (patterns with wildcards, with escapes only, plain literals; names that contain the metacharacters themselves), while the driver itself grows (several table doublings), shrinks (table halving), grows-shrinks-grows, churns, loses six sevenths of its elements in the middle of the iteration, or is completely emptied (key by key, or by FLUSHDB/FLUSHALL/DEL) the collection between calls (during the first calls or spread over the iteration); names random, chosen to share 10-16 low hash bits (long doubling chains) or chosen with pairwise different low bits (compact tables that really halve when elements go); keys removed by DEL, UNLINK or a passed deadline (the latter two leave dead keys in the table, some already dead when the iteration starts), on fresh tables, on tables aged by add/remove cycles and (every other hash/set case) on a COPY of the collection that was built. " +
+	r.Rule = "full iterations (cursor 0 -> ... -> 0, cursors fed back verbatim) of SCAN/HSCAN/SSCAN over collections of 0-3000 elements with COUNT in {1,2,7,10,100,10000}, with and without MATCH/TYPE (patterns with wildcards, with escapes only, plain literals; names that contain the metacharacters themselves), while the driver itself grows (several table doublings), shrinks (table halving), grows-shrinks-grows, churns, loses six sevenths of its elements in the middle of the iteration, or is completely emptied (key by key, or by FLUSHDB/FLUSHALL/DEL) the collection between calls (during the first calls or spread over the iteration); names random, chosen to share 10-16 low hash bits (long doubling chains) or chosen with pairwise different low bits (compact tables that really halve when elements go); keys removed by DEL, UNLINK or a passed deadline (the latter two leave dead keys in the table, some already dead when the iteration starts), on fresh tables, on tables aged by add/remove cycles and (every other hash/set case) on a COPY of the collection that was built; every third hash/set case has a second iteration over a twin collection (same names) running between its calls. " +
 		"oracle (set arithmetic, no model of the cursor): returned >= stable elements matching the filter, nothing never-present, already dead or non-matching returned, HSCAN values were really held, a second quiet iteration returns only elements that exist by a point query, termination within 4*(elements)/COUNT+64 calls and no cursor repeated after mutations stop. distinct = (command, script, size, COUNT, filter, adversarial bits)"
 	sizes := []int{0, 1, 5, 17, 100}
 	counts := []int{1, 2, 7, 10, 100, 10000}
@@ -712,6 +730,7 @@ func checkC17(r *verdict.Run) {
 					}
 					c := c17Case{kind: kind, size: size, count: cnt, script: script, compact: script == "collapse"}
 					c.viaCopy = (size+cnt+len(script))%2 == 1
+					c.twin = (size+cnt+len(script))%3 == 0
 					switch rng0.Intn(6) {
 					case 5:
 						c.match = c17SpecialPatterns[rng0.Intn(len(c17SpecialPatterns))]
